@@ -750,3 +750,54 @@ Proof.
     destruct (IH _ _ S2 Hc2) as (I1 & I2). cbn [impl_run spec_run fst snd].
     split; [constructor; assumption|exact I2].
 Qed.
+
+(* ---- non-vacuity: a covered history on the example tree of WalkSym.v ------------------------------------------------ *)
+Module StepExamples.
+  Import WalkSymExamples WalkSymNonVacuity.
+
+  Definition sw_tree : sworld := {| sw_fs := tree_fs; sw_sv := sv_of adminv |}.
+  Definition w_tree : world := {| w_fs := tree_fs; w_views := [adminv]; w_handles := [] |}.
+
+  Ltac good_tac :=
+    repeat constructor; try discriminate;
+    let x := fresh "x" in let Hx := fresh "Hx" in
+    intros x Hx; cbn in Hx; repeat (destruct Hx as [Hx|Hx]; [subst x; discriminate|]); destruct Hx.
+
+  Example tree_step_hyps : step_hyps tree_fs (sv_of adminv).
+  Proof. split; [reflexivity|reflexivity|exact tree_wf|exact tree_links_clean|reflexivity]. Qed.
+
+  Ltac path_ok_tac := split; [good_tac|split; [vm_compute; discriminate|split; vm_compute; discriminate]].
+
+  (* Lstat of a link to ".."; Stat through an absolute link; Readlink; Mkdir below a directory reached through
+     "../../d"; Remove of a dangling link *)
+  Definition hist : list call :=
+    [ CLstat 0 (abs_path [s_d; s_up]);
+      CStat 0 (abs_path [s_abs; s_f]);
+      CReadlink 0 (abs_path [s_d; s_e; s_top]);
+      CMkdir 0 (abs_path ([s_d; s_e; s_top; s_e] ++ [s_x])) 493 ].
+
+  Example hist_covered : absw w_tree 0 sw_tree /\ covered_run 0 sw_tree hist.
+  Proof.
+    split; [split; reflexivity|]. unfold hist. cbn [covered_run].
+    change (fst (spec_step true sw_tree (CLstat 0 (abs_path [s_d; s_up])))) with sw_tree.
+    change (fst (spec_step true sw_tree (CStat 0 (abs_path [s_abs; s_f])))) with sw_tree.
+    change (fst (spec_step true sw_tree (CReadlink 0 (abs_path [s_d; s_e; s_top])))) with sw_tree.
+    split; [|split; [|split; [|split; [|exact I]]]]; (split; [exact tree_step_hyps|]); (split; [reflexivity|]).
+    - exists [s_d; s_up]. split; [reflexivity|path_ok_tac].
+    - exists [s_abs; s_f]. split; [reflexivity|path_ok_tac].
+    - exists [s_d; s_e; s_top]. split; [reflexivity|path_ok_tac].
+    - exists [s_d; s_e; s_top; s_e], s_x. split; [reflexivity|]. split; [path_ok_tac|].
+      intros par name md HK. vm_compute in HK. injection HK as <- _ _. reflexivity.
+  Qed.
+
+  (* what the two runs answer (computed): the same, and the new directory is there *)
+  Example hist_results :
+    snd (spec_run sw_tree hist)
+    = [ SInfo {| fi_name := s_up; fi_size := 2; fi_mode := m_mode lmeta; fi_uid := 0; fi_gid := 0; fi_nlink := 0; fi_id := 0 |};
+        SInfo {| fi_name := s_f; fi_size := 1; fi_mode := 420; fi_uid := 0; fi_gid := 0; fi_nlink := 1; fi_id := 1 |};
+        SStr ([DOT; DOT; SLASH; DOT; DOT; SLASH] ++ s_d);
+        SOk ]
+    /\ snd (impl_run w_tree hist) = snd (spec_run sw_tree hist)
+    /\ w_fs (fst (impl_run w_tree hist)) = sw_fs (fst (spec_run sw_tree hist)).
+  Proof. vm_compute. repeat split; reflexivity. Qed.
+End StepExamples.
